@@ -213,6 +213,19 @@ func (ev *Evaler) AddModule(name string, mod *Ns) {
 	ev.modules[name] = mod
 }
 
+func (ev *Evaler) lookupModule(name string) (*Ns, bool) {
+	ev.mu.RLock()
+	defer ev.mu.RUnlock()
+	ns, ok := ev.modules[name]
+	return ns, ok
+}
+
+func (ev *Evaler) deleteModule(name string) {
+	ev.mu.Lock()
+	defer ev.mu.Unlock()
+	delete(ev.modules, name)
+}
+
 // ValuePrefix returns the prefix to prepend to value outputs when writing them
 // to terminal.
 func (ev *Evaler) ValuePrefix() string {
@@ -421,8 +434,8 @@ func (ev *Evaler) Check(src parse.Source, w io.Writer) (error, []string, error) 
 // errors. If w is not nil, deprecation messages are written to it.
 func (ev *Evaler) CheckTree(tree parse.Tree, w io.Writer) ([]string, error) {
 	ev.mu.RLock()
-	b, g, m := ev.builtin, ev.global, ev.modules
+	b, g, m := ev.builtin, ev.global, mapKeys(ev.modules)
 	ev.mu.RUnlock()
-	_, autofixes, compileErr := compile(b.static(), g.static(), mapKeys(m), tree, w)
+	_, autofixes, compileErr := compile(b.static(), g.static(), m, tree, w)
 	return autofixes, compileErr
 }
